@@ -465,11 +465,11 @@ def judge(fs, op, res):
 def parse_save(res):
     """m=:<status>:<calls>.<fails>:<live>:<reload>:<store> -> dict or None"""
     f = res.split(":")
-    if len(f) != 6 or not f[0].startswith("m") or len(f[0]) != 2:
+    if len(f) != 6 or not f[0].startswith("m") or len(f[0]) not in (2, 3):
         return None
     try:
         calls, fails = f[2].split(".")
-        d = {"flag": f[0][1], "status": f[1], "calls": int(calls), "fails": int(fails), "live": f[3],
+        d = {"flag": f[0][1], "valid": f[0][2:], "status": f[1], "calls": int(calls), "fails": int(fails), "live": f[3],
              "reload": f[4], "store": f[5]}
     except ValueError:
         return None
@@ -579,8 +579,12 @@ def compare(case, impl, model):
         if da is None or db is None:
             return False
         flag = db["flag"]
+        if db["cls"] == "ok":
+            # the Lean grammar predicate and the oracle's grammar check must agree on the model's own text
+            if db["valid"] not in ("0", "1") or (db["valid"] == "1") != (check_grammar(db["text"])[0] is not None):
+                return False
         if flag == "=":
-            if a != b:
+            if a != "m=:" + b.split(":", 1)[1]:
                 return False
         elif flag == "~":
             if da["cls"] != db["cls"] or da["live"] != db["live"] or da["reload"] != db["reload"]:
@@ -927,12 +931,12 @@ def _gen_load_case(rng, valid=True):
 
 def generate(rng, tier):
     cases = []
-    n = 420 if tier == "quick" else 9000
+    n = 1300 if tier == "quick" else 12000
     for _ in range(n):
         cases.append(_gen_case(rng, tier))
-    for _ in range(150 if tier == "quick" else 3000):
+    for _ in range(450 if tier == "quick" else 5000):
         cases.append(_gen_load_case(rng, True))
-    for _ in range(60 if tier == "quick" else 1200):
+    for _ in range(150 if tier == "quick" else 2000):
         cases.append(_gen_load_case(rng, False))
     for _ in range(3 if tier == "quick" else 20):
         cases.append(_gen_case(rng, tier, maxb=PROD, nops=rng.randint(8, 40), mode="none"))
